@@ -744,8 +744,9 @@ func (s *Server) runElection(id string, elecID *spb.Uint128) (*spb.ModifyRespons
 		return nil, status.Newf(codes.Internal, "cannot store election ID %s for client %s", elecID, id).Err()
 	}
 
-	s.elecMu.RLock()
-	defer s.elecMu.RUnlock()
+	// The election state is read and then written, so it must be held exclusively.
+	s.elecMu.Lock()
+	defer s.elecMu.Unlock()
 	nm, _, err := isNewMaster(elecID, s.curElecID)
 	if err != nil {
 		return nil, err
